@@ -28,7 +28,7 @@ class Contract:
     """
 
     def __init__(self, qual, params, returns=None, requires=None, ensures=None, raises=None, loops=None,
-                 modifies=(), trusted=False, properties=(), note="", decreases=None, locals=None, defaults=None, hints=None, fuel=3, axioms=(), abstractions=None, result_builder=None):
+                 modifies=(), trusted=False, properties=(), note="", decreases=None, locals=None, defaults=None, hints=None, fuel=3, axioms=(), abstractions=None, result_builder=None, shards=0):
         self.qual = qual
         self.params = params
         self.returns = returns
@@ -55,6 +55,7 @@ class Contract:
         # result_builder(ex, bound_args) -> value: for factory functions whose result shares heap
         # objects with the arguments (identity cannot be said in `ensures`)
         self.result_builder = result_builder
+        self.shards = shards  # >0: discharge the obligations in that many parallel processes
         REGISTRY[qual] = self
 
 
